@@ -247,8 +247,11 @@ def _worker(task):
         elif sub.custom is not None:
             try:
                 sub.custom(tier=tier, seed=hseed, shard=shard, nshards=nshards, stats=stats, rec=rec)
-            except Violation:
-                pass
+            except Violation as v:
+                if v.key in rec.known_keys:
+                    stats.known[v.key] += 1
+                else:
+                    rec._failed(v, v.case)
         if rec.best is not None:
             v = rec.best
             out["violation"] = dict(key=v.key, message=v.message, case=jsonx.enc(v.case))
